@@ -19,6 +19,7 @@ mod c29;
 mod c30;
 mod c31;
 mod c34;
+mod c18;
 mod c19;
 mod c20;
 mod c24;
@@ -77,6 +78,7 @@ fn main() {
         "c31-child" => c31::child(rest),
         "c31-drive" => c31::drive(rest),
         "c34-replay" => c34::replay(rest),
+        "c18-run" => c18::run(rest),
         "c19-replay" => c19::replay(rest),
         "c19-big" => c19::big(rest),
         "c20-replay" => c20::replay(rest),
